@@ -14,23 +14,23 @@ CHECKS = {
  'C01': ('rapidcheck-generated resolver/observer programs x generated/swept thread schedules on a virtual runtime; oracle = exactly-one-winner count, winner payload equality, observer agreement, instance counting, allocation balance, ASan/UBSan/assert',
          EXPL + 'All 1-preemption schedules of the swept programs are enumerated.', SC + '; <=4 resolvers, <=2 observers, 5 value types', '3 C01'),
  'C02': ('rapidcheck-generated waiter/resolver programs x generated/swept schedules + injected spurious weak-CAS failures; oracle = per-waiter release count == 1, ready() at release, release-after-set order, complete payload (checksummed), deadlock detector, ASan stack-use-after-return on released waiters',
-         EXPL + '7 waiter kinds x 6 resolver kinds x 5 value types; classes before/overlap/after the resolution are all populated and counted.', SC + '; <=3 waiters, one resolver', '3 C02'),
+         EXPL + '10 waiter kinds x 12 resolver forms x 5 value types, plus futures born resolved through the set_value / set_exception / set_not_value factories; classes before/overlap/after the resolution are all populated and counted.', SC + '; <=3 waiters, one resolver', '3 C02'),
  'C03': ('the multi-threaded scenarios of the other properties executed under ThreadSanitizer (clang++) on the virtual runtime with generated/swept schedules; the baton is invisible to TSan and atomic_thread_fence is modelled explicitly; oracle = happens-before race detector + payload checksums',
          EXPL + 'Data races are decided exactly for the executed accesses under the declared memory orders (happens-before analysis, not timing), for every explored interleaving.',
          SC + '; stale values that only weakly ordered hardware produces through relaxed atomics alone are out of reach; shared_ptr internals are not interposed', '3 C03'),
- 'C04': ('rapidcheck-generated chains of scripted async coroutines (11 start modes x 4 completion modes x 3 result types, depth 1..5) on the virtual runtime; oracle = body-run counters, launcher-received outcome, argument/local guards, instance counting, allocation balance, ASan, deadlock detector',
+ 'C04': ('rapidcheck-generated chains of scripted async coroutines (13 start modes x 5 completion modes x 4 result types, depth 1..5; optionally a second thread waiting on the root's future, optionally the root launched by a destructor during stack unwinding) on the virtual runtime; oracle = body-run counters, launcher-received outcome, argument/local guards, instance counting, allocation balance, ASan, deadlock detector',
          EXPL, SC + '; depth <= 5, one pool worker, one resolver thread', '3 C04'),
  'C05': ('stateful byte-decoded single-thread programs of 1..8 scripted coroutines; oracle = online comparison of who gains control with a reference model of the ready queue (FIFO of batches, pause round-robin, suspend-point hand-over, direct-resume loop of ordinary code) + full-drain check',
-         EXPL + 'The reference model was validated against the unchanged tree over several seeds; order inside one operation\'s batch is deliberately not asserted.', SEQ + '; <=8 coroutines x <=6 steps', '3 C05'),
+         EXPL + 'The reference model was validated against the unchanged tree over several seeds; order inside one operation\'s batch is deliberately not asserted.', SEQ + '; <=8 coroutines x <=6 steps over 18 step kinds (a thread pool with one occupied worker is the only other thread; zero schedule)', '3 C05'),
  'C06': ('stateful byte-decoded suspend-point histories (rapidcheck); oracle = reference model (multiset of handles per object) compared after every op, resume counters, allocation balance, ASan',
          EXPL + 'Sizes are steered across the inline->heap transition and every doubling.', SEQ + '; <=6 suspend points, <=40 handles, <=64 ops', '3 C06'),
  'C07': ('rapidcheck-generated contender programs x generated/swept thread schedules on a virtual runtime; oracle = critical-section holder invariant + double-resumption detector + ASan/UBSan/assert + deadlock detector',
-         EXPL + 'All 1-preemption schedules of the swept programs are enumerated.', SC + '; <=4 contenders x <=3 rounds', '3 C07'),
+         EXPL + 'All 1-preemption schedules of the swept programs are enumerated.', SC + '; <=4 contenders (coroutine, blocking thread, callback awaiter) x <=3 rounds; optionally one shared ownership object (lock/unlock adapter)', '3 C07'),
  'C08': ('same generator as C07; oracle over the recorded call history = interval-order FIFO, direct hand-off (no try_lock succeeds while a registered waiter waits), every request granted (deadlock/livelock detector), final try_lock succeeds',
          EXPL + 'The FIFO oracle is an invariant over the recorded history (logical clock ticks at call boundaries), sound for any interleaving.', SC + '; liveness is bounded (deadlock exact per schedule, livelock = step budget)', '3 C08'),
  'C09': ('stateful byte-decoded queue histories compared with a reference model after every op + producer/consumer threads on the virtual runtime (multiset / order oracle)', EXPL, SC + '; <=60 ops, <=3 producers x <=3 consumers', '3 C09'),
  'C10': ('stateful byte-decoded limited_queue histories (limits 1..4) compared with a reference back-pressure model after every op + producer/consumer threads on the virtual runtime', EXPL, SC + '; <=60 ops, <=3 producers x <=3 consumers', '3 C10'),
- 'C11': ('rapidcheck-generated pool programs (7 submission kinds x 4 stop events) x generated/swept schedules + spurious cv wake-ups; oracle = ran+cancelled == 1 per job, worker identity, observable cancellation, no pending future/coroutine, closure guard counts, deadlock detector',
+ 'C11': ('rapidcheck-generated pool programs (7 submission kinds x 4 stop events; optionally the owner waits for every result before stopping, a job that keeps its worker until another submission has started, jobs using a private inner pool, run(async) coroutines that suspend on the pool) x generated/swept schedules + spurious cv wake-ups; oracle = ran+cancelled == 1 per job, worker identity, observable cancellation, no pending future/coroutine, closure guard counts, deadlock detector',
          EXPL, SC + '; <=3 workers, <=3 jobs', '3 C11'),
  'C12': ('stateful byte-decoded manual-mode scheduler histories vs a reference model + running scheduler (single-thread start, thread mode, thread-pool mode) under VIRTUAL TIME on the virtual runtime; oracle = exact wake-up times, deadline order, cancel results, zero-time destruction, deadlock detector',
          EXPL + 'Time is virtual: "never early / exactly at the time point when idle" is an equality check.', SC + '; <=60 history ops, <=4 sleepers; time only advances when every thread is idle', '3 C12'),
@@ -40,10 +40,10 @@ CHECKS = {
          EXPL, SC + '; <=5 sources, read bound 10 for infinite sources', '3 C14'),
  'C15': ('stateful byte-decoded signal histories (listeners, callbacks, 3 emission forms, handle copy/drop, cross-thread subscription) vs a reference model of the listeners waiting at each emission', EXPL, SC + '; <=40 ops; one collector call at a time (documented)', '3 C15'),
  'C16': ('stateful byte-decoded publisher histories (configs max/min 1..5/unlimited, 3 subscription modes, awaited/blocking/polled next, kick/leave/close) vs a reference stream model + publisher thread against subscriber threads on the virtual runtime',
-         EXPL + 'Only the run up to a subscriber\'s first end-of-stream indication is judged (what follows is unspecified).', SC + '; <=50 ops, <=4 subscribers; thread mode uses the unlimited queue', '3 C16'),
+         EXPL + 'Only the run up to a subscriber\'s first end-of-stream indication is judged (what follows is unspecified).', SC + '; <=50 ops, <=4 subscribers; thread scenarios: unlimited queue of int (incl. second publisher, late subscriber, kicker, copier threads) and bounded queue (max 1..3) of instance-counted values', '3 C16'),
  'C17': ('rapidcheck-generated shared_future programs (5 construction kinds x resolver thread x 1..3 worker threads with 5 actions) x generated/swept schedules; oracle = same result for all copies, single release, instance count alive exactly while needed, allocation balance, ASan', EXPL, SC + '; <=3 workers', '3 C17'),
- 'C18': ('rapidcheck-generated adapter x outcome x timing (incl. concurrent resolution on another thread) cases; oracle = completion count == 1 with the right outcome, converter result/exception, tracking-storage alloc/release == 1, allocation balance, ASan', EXPL, SC + '; 11 adapter forms x 3 outcomes x 3 timings', '3 C18'),
- 'C19': ('stateful byte-decoded create/complete histories per storage policy through a tracking allocator (live range registry, canaries, allocation counting) + two threads on one reusable_storage_mtsafe on the virtual runtime', EXPL, SC + '; <=40 ops, 3 frame sizes, 7 policies', '3 C19'),
+ 'C18': ('rapidcheck-generated adapter x outcome x timing (incl. concurrent resolution on another thread) cases; oracle = completion count == 1 with the right outcome, converter result/exception, tracking-storage alloc/release == 1, allocation balance, ASan', EXPL, SC + '; 11 adapter forms x 3 outcomes x 3 timings (converters returning values or references, int or instance-counted payloads)', '3 C18'),
+ 'C19': ('stateful byte-decoded create/complete histories per storage policy through a tracking allocator (live range registry, canaries, allocation counting) + two threads on one reusable_storage_mtsafe on the virtual runtime', EXPL, SC + '; <=40 ops, 6 frame sizes, 7 policies (attached-object factories may throw)', '3 C19'),
  'C20': ('stateful byte-decoded programs over futures/promises, waiters (coroutine frames in a pre-allocated arena), mutex hand-over, <=3-handle suspend points and a synchronous generator inside a measured region of the counting global operator new; metamorphic doubling; oracle = count == 0',
          EXPL + 'Domain: at most 3 coroutine waiters per future (documented allocation-free capacity of a suspend point).', SC + '; <=40 ops executed twice', '3 C20'),
 }
